@@ -19,7 +19,8 @@ ASSUMPTIONS = ["EMA starts from 0 (the callback's documented zero initial state)
 
 
 def units(tier):
-    return [{"name": n, "timeout": 2400} for n in ("next_direct", "learn_records", "iteration_records", "average_reward")]
+    return [{"name": n, "timeout": 2400} for n in ("next_direct", "learn_records", "iteration_records", "average_reward",
+                                                     "average_reward_stateful")]
 
 
 # ----------------------------------------------------------------------------------- (a)
@@ -181,12 +182,23 @@ def u_learn_records(ctx):
         K = int(ctx.rng.integers(2, 7))
         T = K * E * S + int(ctx.rng.integers(0, E * S))
         rec = Recorder()
-        cb = LoggingCallback(_backend(rec), name=f"run{c}", alpha=alpha)
+        n_backends = [1, 2, 3][c % 3]
+        others = [Recorder() for _ in range(n_backends - 1)]
+        backends = [_backend(rec)] + [_backend(r) for r in others]
+        cb = LoggingCallback(backends if n_backends > 1 else backends[0], name=f"run{c}", alpha=alpha)
         out = algo.learn(env, pol, T, key=ctx.key(1000 + c), callback=cb)
         jax.block_until_ready(jax.tree.leaves(out))
         jax.effects_barrier()
         cb.close()
         ev = rec.snapshot()
+        # every configured backend receives the same records
+        for bi, r in enumerate(others):
+            ctx.monitor("additional_backends_compared")
+            if [e for e in r.snapshot() if e[0] == "scalars"] != [e for e in ev if e[0] == "scalars"]:
+                ctx.violation("backends-receive-different-records",
+                              {"algo": name, "backends": n_backends, "backend": bi + 1,
+                               "first_steps": [e[2] for e in ev if e[0] == "scalars"],
+                               "this_steps": [e[2] for e in r.snapshot() if e[0] == "scalars"]})
         sc = [e for e in ev if e[0] == "scalars"]
         info = {"algo": name, "ending": ending, "episode_len": Lep, "E": E, "S": S, "alpha": alpha, "learning_starts": ls,
                 "iterations": K}
@@ -222,6 +234,7 @@ def u_learn_records(ctx):
                 ctx.violation(key, {**info, "record": j, "got": got_r, "want": want})
                 break
     ctx.require("log_records_received", 6)
+    ctx.require("additional_backends_compared", 2)
 
 
 # ----------------------------------------------------------------------------------- (c)
@@ -436,6 +449,68 @@ def u_average_reward(ctx):
     ctx.require("multiset_decoded", 5)
 
 
+def u_average_reward_stateful(ctx):
+    """A policy whose action depends on its *internal state* (a step counter), not on the observation:
+    the evaluation helper must carry the policy state along the episode."""
+    import equinox as eqx
+    import jax
+    import jax.numpy as jnp
+    from typing import ClassVar
+    from lerax.benchmark import average_reward
+    from lerax.policy import AbstractPolicy
+    from lerax.wrapper import TimeLimit
+    from vlib.mdp import FiniteMDP, RefMDP, random_tables
+    from vlib.stubs import CountState
+
+    class OpenLoop(AbstractPolicy):
+        name: ClassVar[str] = "OpenLoop"
+        action_space: object
+        observation_space: object
+        plan: jax.Array
+
+        def __init__(self, env, plan):
+            self.action_space, self.observation_space = env.action_space, env.observation_space
+            self.plan = jnp.asarray(plan, jnp.int32)
+
+        def reset(self, *, key):
+            return CountState(jnp.array(0, jnp.int32))
+
+        def __call__(self, state, observation, *, key=None, action_mask=None):
+            return CountState(state.n + 1), self.plan[jnp.minimum(state.n, self.plan.shape[0] - 1)]
+
+    jar = eqx.filter_jit(average_reward)
+    for c in range(ctx.n(20, 150)):
+        nS, nA = int(ctx.rng.integers(3, 7)), int(ctx.rng.integers(2, 4))
+        tabs = random_tables(ctx.rng, nS, nA, p_term=0.2, n_starts=1)
+        tl = int(ctx.rng.integers(2, 7))
+        env = TimeLimit(FiniteMDP(tabs["P"], tabs["R"], tabs["term"], tabs["starts"]), tl)
+        ref = RefMDP(tabs["P"], tabs["R"], tabs["term"], tabs["starts"], time_limit=tl)
+        plan = ctx.rng.integers(0, nA, 8)
+        cap = [None, 2, 4, 16][int(ctx.rng.integers(0, 4))]
+        s, t, want, acts = int(tabs["starts"][0]), 0, 0.0, []
+        while cap is None or t < cap:
+            a = int(plan[min(t, 7)])
+            acts.append(a)
+            ns, r, term, trunc = ref.step(s, t, a)
+            want += r
+            s, t = ns, t + 1
+            if term or trunc:
+                break
+        got = float(jar(env, OpenLoop(env, plan), num_episodes=int(ctx.rng.integers(1, 4)), max_steps=cap,
+                        deterministic=bool(c % 2), key=ctx.key(c)))
+        varied = len(set(acts)) > 1
+        ctx.case({"plan": plan, "cap": cap, "tl": tl, "steps": t, "c": c}, nontrivial=varied,
+                 cls=f"average_reward/stateful/{'while' if cap is None else 'scan'}")
+        ctx.monitor("stateful_policy_evaluations")
+        if varied:
+            ctx.monitor("stateful_policy_evaluations_with_varying_actions")
+        if abs(got - want) > 1e-5 * max(1, abs(want)) + 1e-6:
+            ctx.violation("evaluation-does-not-carry-policy-state", {"got": got, "want": want, "plan": plan, "cap": cap, "tl": tl})
+    ctx.require("stateful_policy_evaluations_with_varying_actions", 5)
+
+
 def run_unit(name, ctx):
+    if name == "average_reward_stateful":
+        return u_average_reward_stateful(ctx)
     {"next_direct": u_next_direct, "learn_records": u_learn_records, "iteration_records": u_iteration_records,
      "average_reward": u_average_reward}[name](ctx)
